@@ -247,7 +247,7 @@ def run(pid, tier, seed):
                        "REPLICATE keeps an existing annotation: the generated existing annotations are truthful (`object`)"]
     chk.partial = ("the composition theorem (pipeline_sound) ends at the type handed to the renderer; that the rendered text evaluated with the stub's "
                    "names is that type is checked on every generated stub (here and in C11), not proved")
-    proof = framework.lean_check(pid, extra_props=("C04", "C05", "C07", "C08", "C13"))
+    proof = framework.lean_check(pid, extra_props=("C04", "C05", "C07", "C08", "C11", "C13"))
     quick = tier == "quick"
     import monkeytype
     from monkeytype import cli
